@@ -738,6 +738,8 @@ def from_model(e):
         return sig("m%d_0" % e["w"], e["w"])
     if k == "num":
         return num(e["v"])
+    if k == "lv":                        # a loop variable ranging over 0 .. hi (see model_block)
+        return {"k": "loopvar", "name": "i%d" % e["hi"], "hi": e["hi"]}
     if k == "unop":
         return {"k": "unop", "op": e["op"], "a": from_model(e["a"])}
     if k in ("binop", "shift", "cmp"):
@@ -753,3 +755,25 @@ def from_model(e):
     if k == "slice":
         return {"k": "slice", "a": from_model(e["a"]), "lo": num(e["lo"]), "hi": num(e["hi"])}
     raise ValueError(k)
+
+
+def _loop_his(t, acc):
+    if t["k"] == "loopvar" and "hi" in t:
+        acc.add(t["hi"])
+    for f in ("a", "b", "c", "i", "lo", "hi"):
+        if isinstance(t.get(f), dict):
+            _loop_his(t[f], acc)
+    for x in t.get("args", []):
+        _loop_his(x, acc)
+    return acc
+
+
+def model_block(name, e, tw, tag="model"):
+    """state (e, tw) of RTLIRTypes.tla -> the block `s.o<tw>_0 @= e`, inside `for i<hi> in range(hi + 1)` for
+    every loop-variable leaf of e"""
+    tree = from_model(e)
+    st = {"k": "assign", "t": sig("o%d_0" % tw, tw), "v": tree}
+    for hi in sorted(_loop_his(tree, set())):
+        st = {"k": "for", "var": "i%d" % hi, "range": [num(hi + 1)], "body": [st]}
+    return Block(name, [st], tag=tag)
+
